@@ -88,7 +88,8 @@ Definition pfail (f : gctx -> list call -> bool) (cs : list scan_case) : list na
 Definition mismatches_C01 := mism false pi_removal.   Definition propfail_C01 := pfail check_C01_group.
 Definition mismatches_C03 := mism false pi_updates.   Definition propfail_C03 := pfail check_C03_group.
 Definition mismatches_C04 := mism false pi_cloud.     Definition propfail_C04 := pfail check_C04_group.
-Definition mismatches_C06 := mism false pi_decision.  Definition propfail_C06 := pfail check_C06_group.
+Definition mismatches_C06 := mism false pi_decision.
+Definition propfail_C06 := pfail (fun x calls => check_C06_group x calls && check_up_attempted x calls).
 Definition mismatches_C07 := mism false pi_reuse.
 Definition propfail_C07 := pfail (fun x calls => check_C07_group x calls && check_C07_exact x calls).
 Definition mismatches_C08 := mism false pi_k8s.       Definition propfail_C08 := pfail check_C08_group.
